@@ -75,8 +75,13 @@ class Ctx:
         self.workers = int(os.environ.get("VERIF_WORKERS", "4" if tier == "quick" else "14"))
 
     # ------------------------------------------------------------------ utils
+    def start_run_clock(self):
+        """called by the runner after the Lean build/audit: the K/S budget counts from
+        here, so that a slow (cold) build cannot eat the generation budget"""
+        self.t_run = time.time()
+
     def time_left(self):
-        return self.budget_s - (time.time() - self.t0)
+        return self.budget_s - (time.time() - getattr(self, "t_run", self.t0))
 
     def count(self, key, n=1):
         self.counters[key] = self.counters.get(key, 0) + n
@@ -339,6 +344,8 @@ def finish(ctx):
         print("VIOLATION property=%s replay=%s no-failing-input-found" % (ctx.prop, path))
         nviol += 1
         rc = 1
+    if rc == 0 and ctx.evaluations == 0 and not getattr(ctx, "is_replay", False):
+        ctx.infra_errors.append("no K/S case was executed (evaluations = 0): a check that explored nothing must not pass")
     if ctx.infra_errors and rc == 0:
         for e in ctx.infra_errors:
             print("INFRA-ERROR: %s" % e, file=sys.stderr)
